@@ -511,9 +511,9 @@ pub fn wire_type_of(n: u8) -> Option<WireType> {
     WireType::try_from(n as u64).ok()
 }
 
-pub const GEN_MSGS: [&str; 13] = ["AllScalars", "Small", "Maps", "Choice", "Node", "Peer", "Envelope", "Holder", "GroupMsg", "P2Small", "P2Req", "P2Opt", "P2Rec"];
+pub const GEN_MSGS: [&str; 14] = ["AllScalars", "Small", "Maps", "Choice", "Node", "Peer", "Envelope", "Holder", "GroupMsg", "P2Small", "P2Req", "P2Opt", "P2Rec", "Scrambled"];
 /// generated message types a unit draws its base message from (Envelope twice: it reaches most of the others)
-pub const GEN_PICK: [&str; 13] = ["AllScalars", "Small", "Maps", "Choice", "Node", "Peer", "Envelope", "Envelope", "Holder", "P2Req", "P2Opt", "P2Rec", "P2Opt"];
+pub const GEN_PICK: [&str; 14] = ["AllScalars", "Small", "Maps", "Choice", "Node", "Peer", "Envelope", "Envelope", "Holder", "P2Req", "P2Opt", "P2Rec", "P2Opt", "Scrambled"];
 
 pub fn decode_gen<B: Buf>(name: &str, buf: B, length_delimited: bool) -> Result<(), DecodeError> {
     use crate::pgen::pcorpus_gen::pcorpus as g;
@@ -536,6 +536,7 @@ pub fn decode_gen<B: Buf>(name: &str, buf: B, length_delimited: bool) -> Result<
         "Peer" => go!(g::Peer),
         "Envelope" => go!(g::Envelope),
         "Holder" => go!(g::Holder),
+        "Scrambled" => go!(g::Scrambled),
         "GroupMsg" => go!(GroupMsg),
         "P2Small" => go!(g2::P2Small),
         "P2Req" => go!(g2::P2Req),
